@@ -397,5 +397,5 @@ MANIFEST = {
                   'keeps earlier evidence unchanged and in order.',
     'level_note': 'dim <= 2, <= 2 query points, <= 2 evidence points; normal cdf/pdf, exp, prior uninterpreted; the fitted GPy '
                   'object is a stand-in that satisfies the stated Woodbury relations (the comparison fast path vs GPy slow path '
-                  'itself is numerical only); threshold given explicitly.',
+                  'itself is numerical only); threshold given explicitly; one float-region harness ((h-MU)/sd in (-400,-30)) whose models are run on the real code in doubles.',
 }
